@@ -34,6 +34,9 @@ def scenario(rng, k, crash=None, git=False, dirty=False):
     steps.append(G.run_step(rng, 300, target="//:d", again=False, p_fail=0.0))
     steps.append({"cmd": "restore", "argv": ["restore", "../A.tar.gz"], "archive": "../A.tar.gz", "if_exists": "../A.tar.gz"})
     steps.append(G.run_step(rng, 400, again=False, p_fail=0.2))
+    for st in steps:
+        if st["cmd"] == "run":
+            st["tidy"] = G.tidy_choice(rng, proj)      # tasks that clear / overwrite *.json in their own output directory
     real = [i for i, s in enumerate(steps) if s["cmd"] in ("run", "archive", "gc", "restore")]
     for i in real:
         steps[i]["count"] = crash is None
